@@ -587,6 +587,26 @@ func (b *Builder) expr(c *am.Const) constant.Constant {
 		return constant.NewFCmp(asmenum.FPredFromString(e.Pred), a[0], a[1])
 	case "select":
 		return constant.NewSelect(a[0], a[1], a[2])
+	case "fneg":
+		return constant.NewFNeg(a[0])
+	case "fptrunc":
+		return constant.NewFPTrunc(a[0], to)
+	case "fpext":
+		return constant.NewFPExt(a[0], to)
+	case "fptoui":
+		return constant.NewFPToUI(a[0], to)
+	case "fptosi":
+		return constant.NewFPToSI(a[0], to)
+	case "uitofp":
+		return constant.NewUIToFP(a[0], to)
+	case "sitofp":
+		return constant.NewSIToFP(a[0], to)
+	case "extractelement":
+		return constant.NewExtractElement(a[0], a[1])
+	case "insertelement":
+		return constant.NewInsertElement(a[0], a[1], a[2])
+	case "shufflevector":
+		return constant.NewShuffleVector(a[0], a[1], a[2])
 	case "getelementptr":
 		idx := a[1:]
 		var is []constant.Constant
